@@ -24,7 +24,8 @@ CHECKS = {
         "technique": "bounded exhaustive enumeration + rapid property-based testing against a reference op replayer",
         "level_text": ("Every case of the listed small sub-spaces is enumerated (exhaustive there); the rest of the stated box "
                        "and the large-content space (4MiB data-op splitting, buffer wrap at drawn phases) are sampled by rapid; in one third of "
-                       "the sampled cases the source is read through a reader with generated short reads that may return its last bytes together with io.EOF (the real differ reads from an io.Pipe). "
+                       "the sampled cases the source is read through a reader with generated short reads that may return its last bytes together with io.EOF (the real differ reads from an io.Pipe), and in one third the old files' readers do not end where the files end "
+                       "(more bytes follow: files served from one blob, a file appended to since it was signed; GetSize stays exact). "
                        "Held on everything explored; no claim beyond the explored cases."),
         "level_note": "trusted: the reference replay by direct slicing; Go's bytes/crypto; rapid's generator. Large content is sampled.",
         "rule": ("(a) exhaustive enumeration of the listed sub-spaces (alphabet, number and max length of old files, "
